@@ -161,8 +161,10 @@ void snoopy_action_log_syscall_exec(void)
 static char *g_env0[2];
 static void one_call(const struct call_in *c)
 {
-    char fn[SLEN + 1], avs[NVEC][SLEN + 1], evs[NVEC][SLEN + 1];
-    char *av[NVEC + 1], *ev[NVEC + 1];
+    /* static: both calls of a history use the SAME caller buffers (a launcher re-using its argv array), so state keyed on
+     * pointer identity that survives a call is exposed; every byte is rewritten per call from that call's symbolic input */
+    static char fn[SLEN + 1], avs[NVEC][SLEN + 1], evs[NVEC][SLEN + 1];
+    static char *av[NVEC + 1], *ev[NVEC + 1];
     for (int i = 0; i <= SLEN; i++) fn[i] = (i < SLEN) ? c->fn[i] : '\0';
     for (int k = 0; k < NVEC; k++) {
         for (int i = 0; i <= SLEN; i++) { avs[k][i] = (i < SLEN) ? c->av[k][i] : '\0'; evs[k][i] = (i < SLEN) ? c->ev[k][i] : '\0'; }
